@@ -2,7 +2,11 @@
 semantics-preserving AST rewrite: a method call on a string/bytes *literal*
 (``b''.join(xs)``, ``'.'.join(xs)``, ``'{}E{}'.format(a, b)``) is routed through
 ``__sym_lit__(literal, 'method', *args)``, and ``x in y`` / ``x not in y`` through
-``__sym_in__(x, y)`` (same reason: ``str.__contains__`` rejects a proxy operand).  CPython executes such calls in C and only
+``__sym_in__(x, y)`` (same reason: ``str.__contains__`` rejects a proxy operand), and a
+call of an *inspecting* str method (``upper``, ``strip``, ``replace``, ``find`` ...) on a computed
+receiver through ``__sym_meth__(recv, 'method', *args)``, which performs exactly the original
+call unless the receiver is a genuine ``str`` carrying placeholder characters of formatted
+symbolic text (then: modelled, or the path is inconclusive -- never silently native).  CPython executes such calls in C and only
 accepts genuine ``str``/``bytes`` arguments; the router falls back to exactly the
 original call unless an argument is a symbolic proxy.  Nothing else is changed, and
 with VERIF_PRISTINE=1 the hook is not installed at all (used by replays).
@@ -18,6 +22,13 @@ REPO = os.environ.get('VERIF_REPO', '/repo')
 PREFIXES = ('asn1tools.codecs', 'asn1tools.parser', 'asn1tools.compiler', 'asn1tools.source')
 
 
+_INSPECTING = frozenset((
+    'upper lower strip lstrip rstrip replace split rsplit find rfind index rindex count '
+    'startswith endswith partition rpartition splitlines translate title capitalize swapcase casefold isdigit '
+    'isalpha isalnum isspace isupper islower isnumeric isdecimal isidentifier isprintable isascii zfill center '
+    'ljust rjust expandtabs removeprefix removesuffix').split())
+
+
 class _Rewrite(ast.NodeTransformer):
     def __init__(self):
         self.count = 0
@@ -30,6 +41,14 @@ class _Rewrite(ast.NodeTransformer):
                 and not any(isinstance(a, ast.Starred) for a in node.args)):
             self.count += 1
             new = ast.Call(func=ast.Name(id='__sym_lit__', ctx=ast.Load()),
+                           args=[f.value, ast.Constant(value=f.attr)] + node.args, keywords=[])
+            return ast.copy_location(new, node)
+        if (isinstance(f, ast.Attribute) and f.attr in _INSPECTING and not node.keywords
+                and not any(isinstance(a, ast.Starred) for a in node.args)):
+            # an inspecting str method on a computed receiver: identical call unless the receiver is
+            # a genuine str that carries placeholder characters (formatted symbolic text)
+            self.count += 1
+            new = ast.Call(func=ast.Name(id='__sym_meth__', ctx=ast.Load()),
                            args=[f.value, ast.Constant(value=f.attr)] + node.args, keywords=[])
             return ast.copy_location(new, node)
         return node
@@ -50,7 +69,18 @@ def sym_in(item, container):
     if type(container) in (str, bytes, bytearray) and type(item) not in (str, bytes, int):
         from pyfront import native_contains
         return native_contains(item, container)
+    if type(container) is str and type(item) is str:
+        import pyfront
+        if pyfront.Engine.cur is not None and (pyfront.has_placeholder(container) or pyfront.has_placeholder(item)):
+            raise pyfront.Inconclusive("'in' inspects formatted text that carries symbolic content")
     return item in container
+
+
+def sym_meth(recv, method, *args):
+    if type(recv) is str:
+        from pyfront import text_method
+        return text_method(recv, method, args)
+    return getattr(recv, method)(*args)
 
 
 def sym_lit(recv, method, *args):
@@ -76,6 +106,7 @@ class _Loader(importlib.abc.Loader):
         code = compile(tree, self.path, 'exec')
         module.__dict__['__sym_lit__'] = sym_lit
         module.__dict__['__sym_in__'] = sym_in
+        module.__dict__['__sym_meth__'] = sym_meth
         module.__dict__['__sym_rewrites__'] = rw.count
         exec(code, module.__dict__)
 
